@@ -245,7 +245,7 @@ func init() {
 		ID: "C09", Level: "exploration",
 		Rule:        "exhaustive matrix: a zoo with a value of every reflect.Kind (Invalid/nil included) and the odd shapes (nil/odd elements in containers, non-string and named-string keyed maps, NaN keys, multi-level / nil / self-referential pointers, cyclic map/slice/struct, hostile json.Number) x 8 holders (map, tagged struct, *map, []interface{}, nested map, map[string]T, []T, the datum itself) x ~270 expressions (8 operators x 13 literal classes x path shapes, not/and/or, quantifiers in every binding mode); then the seeded C01 workload incl. the reference's unspecified cases. oracle: recover() sees no panic, the process does not die, err != nil implies result == false. non-trivial = the expression parsed and was evaluated; distinct by (operator, zoo entry@holder, expression)",
 		Assumptions: []string{"recursive pointer TYPES (type T *T; p = &p) are excluded: pointerstructure's own dereference loop never ends on them, which could only ever be inconclusive here"},
-		NumCases:    func(tier string) int { return len(c09Zoo()) + tierN(tier, 15000, 800000) },
+		NumCases:    func(tier string) int { return len(c09Zoo()) + tierN(tier, 15000, 400000) },
 		Run:         c09Run,
 		Chunk: func(tier string, n int) int {
 			if tier == "thorough" {
